@@ -60,7 +60,7 @@ def producing(rng, c, others):
         ln = 'pack a r=res'
         like = gen.MapCfg('res', 'packed', c.covord, c.spord)
     elif ch == 'single':
-        f = rng.randrange(len(c.fields))
+        f = c.single_field(rng)           # never None: at most one field of a generated record is boolean
         ln = 'single a r=res field=%d copy=1' % f
         like = gen.MapCfg('res', 'plain', c.covord, c.spord, dtype=c.fields[f])
     elif ch == 'scov':
